@@ -85,6 +85,24 @@ namespace fixedmath::detail
     return pwr4;
     }
     
+  ///\returns true when the product does not fit in fixed_internal, otherwise stores it in \param result
+  [[ nodiscard, gnu::always_inline ]]
+  constexpr bool mul_overflow( fixed_internal lh, fixed_internal rh, fixed_internal & result ) noexcept
+    {
+#if defined(__GNUC__) || defined(__clang__)
+    return __builtin_mul_overflow( lh, rh, &result );
+#else
+    using limits = std::numeric_limits<fixed_internal>;
+    if( lh == 0 || rh == 0 ) { result = 0; return false; }
+    if( (lh == -1 && rh == limits::min()) || (rh == -1 && lh == limits::min()) ) return true;
+    if( lh > 0 ? ( rh > 0 ? lh > limits::max() / rh : rh < limits::min() / lh )
+               : ( rh > 0 ? lh < limits::min() / rh : rh < limits::max() / lh ) )
+      return true;
+    result = lh * rh;
+    return false;
+#endif
+    }
+    
   template<int precision>
   [[ nodiscard, gnu::const, gnu::always_inline ]]
   constexpr fixed_internal mul_( fixed_internal x, fixed_internal y ) noexcept
